@@ -77,6 +77,13 @@ def rq_doc_wf(text):
         return None
 
 
+def relation_namesake(src):
+    """some relation argument is a dotted path A.x.. and another one is the bare A"""
+    paths = re.findall(r"\b(?:from|join|append|remove|intersect|union)\s+(?:side:\w+\s+)?\(?\s*(?:from\s+)?([A-Za-z_][A-Za-z_0-9]*(?:\.[A-Za-z_][A-Za-z_0-9]*)*)", src)
+    heads = {p.split(".")[0] for p in paths if "." in p}
+    return any("." not in p and p in heads for p in paths)
+
+
 OP_ARITIES = {}      # operator name -> numbers of arguments seen in the RQs prqlc emitted in this run (filled by run())
 
 
@@ -107,6 +114,10 @@ PRED = {
     # C12-N3 as a precondition (c12_rq_staged_precondition): a structurally mutated RQ that does NOT satisfy rq_wf && rq_agg_ok
     "mutated-rq-json": lambda c: (c["entry"] == "json_rq" and c.get("family", "").startswith("json:") and c.get("family") not in ("json:orig", "json:int:lit")
                                   and rq_doc_wf(c["src"]) is not True),
+    # C12-N19: a dotted name A.x and the bare A used as a relation
+    "qualified-table-and-namesake": lambda c: relation_namesake(c["src"]),
+    # C12-N20: the main relation of an RQ document is an ExternRef
+    "rq-main-relation-extern-ref": lambda c: c["entry"] == "json_rq" and re.search(r'"relation":\s*\{(?:(?!"kind").)*"kind":\s*\{\s*"ExternRef"', c["src"][:c["src"].find('"tables"')] if '"tables"' in c["src"] and c["src"].find('"relation"') < c["src"].find('"tables"') else c["src"], re.S) is not None,
     "mutated-pl-json": lambda c: c["entry"] == "json_pl" and c.get("family", "").startswith("json:") and c.get("family") not in ("json:orig", "json:int:lit"),
     "deep-or-long": lambda c: True,   # refined by thresholds below
     # C12-H3: at least 10 named arguments whose value opens a parenthesis (`x:(`), nested
